@@ -91,7 +91,7 @@ def check_row(job):
         fd = (4 * f1 - f2) / 3 * BOHR
         est = abs(f1 - f2) * BOHR
         n += 1
-        if abs(fd - f[atom, ax]) > tol + 5 * est:
+        if not (abs(fd - f[atom, ax]) <= tol + 5 * est):
             viol.append({"site": "forces:vs-fd:%s:%s:%s" % (row["fam"], "grid-response" if row["grid_response"] else "fixed-grid", row["spin"]),
                          "detail": {"row": row, "atom": atom, "axis": ax, "analytic": float(f[atom, ax]), "fd": float(fd), "est": float(est)}})
     return {"id": job["id"], "viol": viol, "n": n}
